@@ -71,6 +71,16 @@ CLAIMED = {
         text='Exploration: seeded histories (1-40 bundles) with exact repeats, one-component look-alikes, fragments, own-source and administrative-endpoint bundles over random routing tables of overlapping anchored patterns; after each receive the observed deliveries, forwards, reports and seen-set are compared with the model.',
         note=_NOTE,
     ),
+    'C03': dict(
+        technique='runtime differential monitor: integrity blocks produced by the real source agent verified by an independent AAD/COSE implementation, and every single-bit flip / field edit of the encoding judged at a real receiver against the covered octet spans computed by an independent CBOR walker',
+        text='Exploration with an exhaustive sub-space: for COSE_Mac0 (HMAC-256/384/512) and COSE_Sign1 bundles from the real source EVERY single-bit flip of the encoding (sampled for large ones) is classified by location (covered: primary block, target metadata/data, security source, scope/protected parameters, protected header, tag; outside: other blocks) and pushed through a real receiver; field-level edits with CRCs recomputed; oracle-built BIBs with scopes adding other blocks, the security block itself and additional protected parameters; wrong and missing keys. Covered alteration delivered = violation; outside alteration rejected = violation; agent BIB not verifying independently = violation.',
+        note=_NOTE + ' COSE_Mac with a wrapped key and x5t-only signing cannot run with the upstream pycose 1.1.0 installed here (source raises); a mutant that re-types the security block itself carries no obligation.',
+    ),
+    'C12': dict(
+        technique='runtime monitor at the application step of the receive chain and the CL boundary (status report reason) of a real receiver, judged by an independent verify-all oracle over malformation classes built by an independent encoder',
+        text='Exploration over the product of 21 security-block classes (valid, none, wrong tag, unknown key id, altered target/primary, unknown context, missing target, duplicate parameters/results, count mismatch, 0/2 results, garbage/wrong-type/truncated COSE, non-ASB data, bad source EID, scope naming a missing block, two blocks with the first/second/neither failing) x BIB/BCB x key store {all, wrong, none} x accept-after-verify x deletion report requested; fail => no delivery, no escaping exception, report with deleted + security reason; ok/none => delivered with the expected payload and accepted blocks removed.',
+        note=_NOTE,
+    ),
     'C11': dict(
         technique='runtime differential monitor on transmitted bytes: forwarded output of the real agent decoded by the independent RFC 9171 decoder and compared field by field with the received bundle',
         text='Exploration over the product of hop-by-hop block combinations (previous node none/other/self, 0-2 hop counts, age, 0-2 unknown blocks), CRC types, dense/sparse/permuted numbering, creation time zero or not, lifetimes, dwell times and two routes; plus histories of different bundles through one agent to expose state carried between forwards.',
